@@ -124,12 +124,12 @@ func RunIntraProcedural(a *AnalyzerState, sm *SummaryGraph) (time.Duration, erro
 	// translated into a dataflow graph, with special attention for closures.
 	// Next, we build the edges of the summary. The functions for edge building are in this file
 	lang.IterateInstructions(sm.Parent, state.makeEdgesAtInstruction)
-	// Synchronize the edges of global variables
-	sm.SyncGlobals()
 	// Update the locsets / marks of the nodes. The locsets are elements that can be used to check results against
 	// other analyses. Currently, the locsets are the set of instructions that the data represented by a given node
 	// flows to.
 	state.moveLocSetsToSummary()
+	// Synchronize the edges of global variables (after the locsets, which determine which reads are relevant)
+	sm.SyncGlobals()
 	// Mark the summary as constructed
 	sm.Constructed = true
 	// If we have errors, return one. This is sufficient to warn the user that the results are incorrect.
